@@ -132,7 +132,8 @@ MCSLock::LockSIX()  //
   qnode->lock_.store(kXLock, kRelaxed);
   const auto cur = lock_.exchange(new_tail | kSIXLock, kAcquire);
   DBGROUP_VERIF_POINT(kMcsXExchanged, this);
-  qnode->lock_.store(cur & kLockMask, kRelaxed);
+  // a successor may have already linked itself behind this node, so keep the pointer bits
+  qnode->lock_.fetch_xor(kXLock ^ (cur & kLockMask), kRelaxed);
 
   auto *tail = std::bit_cast<MCSLock *>(cur & kPtrMask);
   if (tail != nullptr) {  // wait until predecessor gives up the lock
@@ -160,7 +161,8 @@ MCSLock::LockX()  //
   qnode->lock_.store(kXLock, kRelaxed);
   const auto cur = lock_.exchange(new_tail | kXLock, kAcquire);
   DBGROUP_VERIF_POINT(kMcsXExchanged, this);
-  qnode->lock_.store(cur & kLockMask, kRelaxed);
+  // a successor may have already linked itself behind this node, so keep the pointer bits
+  qnode->lock_.fetch_xor(kXLock ^ (cur & kLockMask), kRelaxed);
 
   auto *tail = std::bit_cast<MCSLock *>(cur & kPtrMask);
   if (tail != nullptr) {  // wait until predecessor gives up the lock
